@@ -50,10 +50,12 @@ CONFIG = dict(
                    "which keeps a list per Stack; that extract_child applies exactly this projection is checked by the runtime shape oracle on every case",
                    "real-scenario leg is a runtime oracle, not a model comparison (DESIGN's record/replay abstraction was replaced by a direct oracle); "
                    "small scope in thorough = every 41st table of the exhaustive 3-object x 2-frame space, each with all single faults and all pairs"],
-    notes=("candidate finding (not in known_findings.json, recorded under extra_legs.finding_candidates_not_in_known_findings): a hook exception raised "
-           "inside the extract_outermost(mgr.gen) call that the contextlib glue makes for an *exiting* generator-based manager with a registered "
-           "unwrap_context_generator is dropped when a frame was already obtained (extract_outermost discards its local error list); "
-           "also counted, not flagged: faults held by an inner_stack that a later unwrap_context replacement discards (documented reset)"),
+    notes=("two known findings are reproduced by the real-scenario leg and reported through the normal KNOWN-FINDING path, both about an exiting "
+           "generator-based manager with a registered unwrap_context_generator hook, where the contextlib glue calls extract_outermost(mgr.gen): "
+           "F23 (C05_fault_inside_glue_extract_outermost) a hook failure after that nested call has its frame is discarded with the call's private "
+           "error list; F24 (C05_runtimeerror_in_glue_extract_outermost_taken_for_no_frames) a hook failure of type RuntimeError (or subclass) "
+           "before any frame is produced is re-raised as-is and eaten by the glue's `except RuntimeError:  # no frames`. Any other lost error is a "
+           "VIOLATION. Counted, not flagged: faults held by an inner_stack that a later unwrap_context replacement discards (documented reset)"),
     timeout={"quick": 900, "thorough": 5400},
 )
 NOTES = CONFIG["notes"]
@@ -284,6 +286,9 @@ def _run_instrumented(desc):
 
     if obs.get("kind") == "ok" and captured:
         obs["shape"] = shape(captured[-1]) or True
+        from .c05_real import render_checks
+        bad = render_checks(captured[-1])
+        obs["render"] = bad[0] if bad else True
     obs["fired"] = fired
     return obs
 
@@ -332,6 +337,8 @@ def direct_oracle(desc, obs):
         return "extract() raised: " + obs.get("exc", "")
     if obs.get("formats") is not True:
         return "the returned Stack cannot be formatted/summarised: %r" % (obs.get("formats"),)
+    if obs.get("render", True) is not True:
+        return "the returned Stack is not renderable by every public renderer: " + str(obs["render"])
     if obs.get("shape", True) is not True:
         return "error shape: " + str(obs["shape"])
     if obs.get("prefix", True) is not True:
